@@ -21,5 +21,10 @@ def tasks(ctx):
     return filter_tasks(ts)
 
 
+# components whose representation invariants the lemmas above assume in every reachable state (engine/closure.py adds
+# the preservation obligations of all their functions)
+tasks.invariant_packages = ('memory',)
+
+
 def run(tier, seed):
     return run_property("C09", tasks, "proof", tier, seed, BASE_ASSUME, TRUSTED)
